@@ -455,3 +455,26 @@ def builder_roles(ctx):
         ref = {k: lst[0][3].get(k) for k in keys}
         diff = ["%s: %s=%s (vs %s in %s)" % (qn, k[4:], can.get(k), ref[k], lst[0][1]) for rel, qn, ln, can in lst[1:] for k in keys if can.get(k) != ref[k]]
         r.check(not diff, "identifier %s (%d constructors)" % (ident, len(lst)), lst[0][0], lst[0][1], lst[0][2], "siblings with identifier %s" % ident, "; ".join(diff))
+
+
+def paired_defaults(ctx):
+    """RWG / SNC and BC / RBC are one space and its rotation by the normal: the Maxwell operators pair them with the same
+    keywords, and their matrices are symmetric only if the two spaces are built from the same options.  The public
+    `function_space(grid, kind, degree, **kwargs)` hands its keywords through, so the constructors' own defaults ARE the
+    defaults: the two constructors of a pair must agree in parameter names, order and default values."""
+    rel = "bempp_cl/api/space/maxwell_spaces.py"
+    m = ctx.repo.mod(rel)
+    r = ctx.rule("SPACE-PAIR-DEFAULTS", "the constructors of a div-conforming space and of its rotated (curl-conforming) twin - rwg0 / snc0, bc / rbc - have the same parameters with the same defaults", 2)
+    for a, b in (("rwg0_function_space", "snc0_function_space"), ("bc_function_space", "rbc_function_space")):
+        fa, fb = m.fn(a), m.fn(b)
+
+        def sig(f):
+            names = [x.arg for x in f.args.args]
+            d = f.args.defaults
+            return [(n, unparse(v) if v is not None else None) for n, v in zip(names, [None] * (len(names) - len(d)) + list(d))]
+
+        sa_, sb_ = sig(fa), sig(fb)
+        diff = [(x, y) for x, y in zip(sa_, sb_) if x != y] + ([("length", len(sa_), len(sb_))] if len(sa_) != len(sb_) else [])
+        r.check(not diff, "%s / %s" % (a, b), rel, b, fb.lineno, "signature of %s vs %s" % (b, a),
+                "%s and %s differ in %s: the same keywords build two different spaces (support, truncation or boundary dofs), and operators that pair them are no longer symmetric" % (
+                    a, b, "; ".join("%s=%s vs %s=%s" % (x[0], x[1], y[0], y[1]) for x, y in diff if isinstance(x, tuple) and len(x) == 2) or diff))
